@@ -137,6 +137,15 @@ class ExprMixin:
             out[k.s] = self.eval(node.value, f2)
         return DictV(out)
 
+    def ex_SetComp(self, node, frame):
+        fam = self.comprehension(node, frame)
+        return self.call_ext("builtins.set", None, [fam], {}, frame, node)
+
+    def ex_NamedExpr(self, node, frame):
+        v = self.eval(node.value, frame)
+        self.assign(node.target, v, frame)
+        return v
+
     def ex_Lambda(self, node, frame):
         return FuncV("lambda", node=node, frame=frame)
 
@@ -342,6 +351,16 @@ class ExprMixin:
                 if k is not None and k.s is not None:
                     res = k.s in r.items
                     return BoolV(res if isinstance(op, ast.In) else not res)
+            if isinstance(l, StrV) and isinstance(r, (TupV, ListV)):
+                cands = self.as_items(r, frame, node) if not (isinstance(r, ListV) and r.kind != "lit") else None
+                if cands is not None and all(isinstance(x, StrV) and x.s is not None for x in cands):
+                    # membership in a literal collection of strings: the sequence of equality tests it stands for
+                    found = False
+                    for x in cands:
+                        if self.truth(self.compare(ast.Eq(), l, x, frame, node), frame, node):
+                            found = True
+                            break
+                    return BoolV(found if isinstance(op, ast.In) else not found)
             c = ("in", key_str(val_key(l)), key_str(val_key(r)))
             if isinstance(r, ListV) and r.kind == "lit" and isinstance(l, Num) and l.r.is_const() \
                     and all(isinstance(x, Num) and x.r.is_const() for x in r.items):
@@ -401,8 +420,11 @@ class ExprMixin:
         if tv is not None:
             return self.eval(node.body if tv else node.orelse, frame)
         if isinstance(t, BoolV) and isinstance(t.cond, tuple) and t.cond[0] in NEG and isinstance(t.cond[1], Rat):
-            a = self.eval(node.body, frame)
-            b = self.eval(node.orelse, frame)
+            try:
+                a = self.eval(node.body, frame)
+                b = self.eval(node.orelse, frame)
+            except RaiseSignal:
+                a = b = None   # an arm that raises is only evaluated on the path that takes it
             if isinstance(a, Num) and isinstance(b, Num):
                 return Num(mk_ite(t.cond, a.r, b.r))
         tv = self.truth(t, frame, node.test)
